@@ -309,7 +309,7 @@ def run_pipeline(prop, cases, timeout=600, worker_args=None):
     """cases: list of s-expression strings.  Returns list of (verdict_kind, fields, obs_text) per case."""
     ids = [str(i) for i in range(len(cases))]
     winput = "".join("%s\t%s\t%s\n" % (prop, i, c) for i, c in zip(ids, cases))
-    w = subprocess.run([os.path.join(BUILD, "worker")] + (worker_args or []), input=winput.encode(),
+    w = subprocess.run([os.path.join(BUILD, "worker-" + prop)] + (worker_args or []), input=winput.encode(),
                        stdout=subprocess.PIPE, stderr=subprocess.PIPE, timeout=timeout)
     obs = {}
     for line in w.stdout.decode("utf-8", "surrogateescape").split("\n"):
